@@ -1,1 +1,109 @@
-pub fn parse_case(_c: &serde_json::Value) -> serde_json::Value { serde_json::Value::Null }
+//! C36: the revset and fileset parsers (jj-lib) on one case.
+use std::error::Error as StdError;
+use std::path::PathBuf;
+
+use jj_lib::dsl_util;
+use jj_lib::fileset;
+use jj_lib::fileset::FilesetAliasesMap;
+use jj_lib::fileset::FilesetDiagnostics;
+use jj_lib::fileset::FilesetParseContext;
+use jj_lib::fileset::FilesetParseError;
+use jj_lib::fileset::FilesetParseErrorKind;
+use jj_lib::repo_path::RepoPathUiConverter;
+use jj_lib::revset;
+use jj_lib::revset::RevsetAliasesMap;
+use jj_lib::revset::RevsetParseError;
+use jj_lib::revset::RevsetParseErrorKind;
+use serde_json::Value;
+
+use crate::grammar_text::materialise;
+use crate::parse_worker::Outcome;
+
+fn err(kind: &str, detail: String) -> Outcome {
+    ("err".to_string(), kind.to_string(), detail.chars().take(200).collect())
+}
+
+fn ok() -> Outcome {
+    ("ok".to_string(), String::new(), String::new())
+}
+
+/// The innermost error of the language's own type decides the kind.
+fn revset_kind(e: &RevsetParseError) -> &'static str {
+    let mut kind = "other";
+    let mut cur: Option<&(dyn StdError + 'static)> = Some(e);
+    while let Some(x) = cur {
+        if let Some(r) = x.downcast_ref::<RevsetParseError>() {
+            kind = match r.kind() {
+                RevsetParseErrorKind::RecursiveAlias(_) => "recursive",
+                RevsetParseErrorKind::InvalidFunctionArguments { .. } => "args",
+                RevsetParseErrorKind::SyntaxError => "parse",
+                RevsetParseErrorKind::InAliasExpansion(_) | RevsetParseErrorKind::InParameterExpansion(_) => kind,
+                _ => "other",
+            };
+        }
+        cur = x.source();
+    }
+    kind
+}
+
+fn fileset_kind(e: &FilesetParseError) -> &'static str {
+    let mut kind = "other";
+    let mut cur: Option<&(dyn StdError + 'static)> = Some(e);
+    while let Some(x) = cur {
+        if let Some(r) = x.downcast_ref::<FilesetParseError>() {
+            kind = match r.kind() {
+                FilesetParseErrorKind::RecursiveAlias(_) => "recursive",
+                FilesetParseErrorKind::InvalidArguments { .. } => "args",
+                FilesetParseErrorKind::SyntaxError => "parse",
+                FilesetParseErrorKind::NoSuchFunction { .. } => "nosuchfunction",
+                FilesetParseErrorKind::InAliasExpansion(_) => kind,
+                _ => "other",
+            };
+        }
+        cur = x.source();
+    }
+    kind
+}
+
+pub fn parse_case(case: &Value) -> Outcome {
+    let (text, defs) = match materialise(case) {
+        Ok(x) => x,
+        Err(e) => return ("harness-error".to_string(), String::new(), e),
+    };
+    match case["lang"].as_str().unwrap_or("?") {
+        "revset" => {
+            let mut map = RevsetAliasesMap::new();
+            for (decl, defn) in &defs {
+                if let Err(e) = map.insert(decl, defn.clone(), None) {
+                    return ("harness-error".to_string(), String::new(), format!("alias decl {decl}: {e}"));
+                }
+            }
+            let r = revset::parse_program(&text).and_then(|node| dsl_util::expand_aliases(node, &map));
+            match r {
+                Ok(_) => ok(),
+                Err(e) => err(revset_kind(&e), e.kind().to_string()),
+            }
+        }
+        "fileset" => {
+            let mut map = FilesetAliasesMap::new();
+            for (decl, defn) in &defs {
+                if let Err(e) = map.insert(decl, defn.clone(), None) {
+                    return ("harness-error".to_string(), String::new(), format!("alias decl {decl}: {e}"));
+                }
+            }
+            let path_converter = RepoPathUiConverter::Fs {
+                cwd: PathBuf::from("/w"),
+                base: PathBuf::from("/w"),
+            };
+            let ctx = FilesetParseContext {
+                aliases_map: &map,
+                path_converter: &path_converter,
+            };
+            match fileset::parse(&mut FilesetDiagnostics::new(), &text, &ctx) {
+                Ok(_) => ok(),
+                Err(e) => err(fileset_kind(&e), e.kind().to_string()),
+            }
+        }
+        l => ("harness-error".to_string(), String::new(), format!("language {l} is not handled by this binary")),
+    }
+}
